@@ -61,7 +61,7 @@ def get_splicers(fname, out):
                         raise RuntimeError(
                             "Mismatched tags  '%s' '%s'", (begin_tag, end_tag)
                         )
-                    if end_tag in top:
+                    if begin_subtag in top:
                         raise RuntimeError(
                             "Tag already exists - '%s'" % begin_tag
                         )
